@@ -1110,6 +1110,6 @@ CLAIM = {
             "recursive matype must not turn a series into NaN. Identities hold for all input values at the analysed length/period. Ranges, non-negativity, band order and channel "
             "enclosure (R6): interval / order analysis of the extracted expressions, universal over valid candle valuations, with witness refutation of what is not provable; "
             "price-homogeneity of every average (R7): dimensional analysis of the extracted expression. Not decided: seed-decay agreement, definitions of indicators outside "
-            "the table, range obligations that are neither provable nor refuted.",
+            "the table, range obligations that are neither provable nor refuted. Window locality: element i of a trailing-window indicator depends only on the candles its definition mentions (R2); effect analysis (R8). Every symbolic rule group runs under a wall-clock budget.",
     "note": "Trusted: numpy model of the interpreter; reference definitions in props/c15.py; fixed small length and periods.",
 }
